@@ -292,6 +292,9 @@ func newWorld(tw *trace.Writer, id string, init map[string]any) *world {
 				OwnerReferences: []metav1.OwnerReference{{APIVersion: "pkg.crossplane.io/v1", Kind: "Provider", Name: "other", UID: "foreign-uid", Controller: ptr.To(true)}}}}
 			r.Spec.Revision = 1
 			r.Spec.DesiredState = pkgv1.PackageRevisionInactive
+			if a, _ := init["foreignAct"].(bool); a {
+				r.Spec.DesiredState = pkgv1.PackageRevisionActive
+			}
 			r.Spec.Package = repo + "@sha256:" + hexOf(f.(string))
 			s.Put(r)
 		}
